@@ -46,6 +46,7 @@ class Contract:
     trusted: bool = False                      # contract assumed, body not verified (listed in evidence)
     note: str = ''
     lemma: bool = False                        # pure spec lemma: no code, goal must be valid
+    accepts: List[str] = field(default_factory=list)   # documented keyword parameters the function must accept
     optional: bool = False                     # the function may be absent (e.g. a method a dataclass generates unless written by hand)
     bounded: bool = False                      # decided only by the bounded run-time contract check (never counted as proved)
     raises_assumed: bool = False               # the exceptional postcondition is assumed for callers, not checked on the body
@@ -149,7 +150,7 @@ class Sidecar:
                 con.invariants = {self._lit(kk): vv for kk, vv in zip(v.keys, v.values)}
             elif k == 'variants':
                 con.variants = {self._lit(kk): vv for kk, vv in zip(v.keys, v.values)}
-            elif k in ('total', 'result_kind', 'result_fresh', 'result_opaque', 'preamble', 'slices', 'raises_assumed', 'bounded', 'optional', 'mutable', 'frame', 'props', 'total_attr_roots', 'trusted', 'note'):
+            elif k in ('total', 'result_kind', 'result_fresh', 'result_opaque', 'preamble', 'slices', 'raises_assumed', 'bounded', 'optional', 'accepts', 'mutable', 'frame', 'props', 'total_attr_roots', 'trusted', 'note'):
                 setattr(con, k, self._lit(v))
             elif k == 'goal' and is_lemma:
                 con.ensures = self._clauses(v, 'lemma')
@@ -322,6 +323,9 @@ class Engine(Core, Expr, Calls, Builtins, Stmts):
                 if k not in env and not k.startswith('$') and v is not None:
                     env[k] = v
                     pnames.append(k)
+        for nm in con.accepts:
+            self.emit(Obligation(con.key, 'sig', nm, con.props or con.all_props(), [], z3.BoolVal(nm in pnames),
+                                 origin=f'the documented keyword parameter {nm!r} is accepted', path_kind='table'))
         self.entry_env = dict(env)
         self.frame_ctr += 1
         env['$frame'] = self.frame_ctr
